@@ -113,7 +113,9 @@ inline Pools make_pools(bool thorough) {
                           "-9223372036854775809", "1.7976931348623157e308", "5e-324", "4.9406564584124654e-324",
                           "123456789012345678901234567890", "0.1234567890123456789012345", "2.2250738585072014e-308",
                           "1e308", "1E308", "1.0", "10", "100", "1e0", "0e0", "0.0", "-0.0", "0E-5", "12345678901234567890",
-                          "0.5", "2.5e-3", "6.02214076e23", "1e22", "1e23", "9007199254740993", "-9007199254740993"}) {
+                          "0.5", "2.5e-3", "6.02214076e23", "1e22", "1e23", "9007199254740993", "-9007199254740993",
+                          // exponents written with leading zeros (RFC 8259: exp = e [ minus / plus ] 1*DIGIT)
+                          "1e00005", "2.5E+00003", "1e-00002", "6.02e+00023", "1e0000000000000000000000002", "7E-000000000001", "1e00", "3e+0000300"}) {
         p.numerals.push_back(T(n));
     }
     // systematic small decimals: every two-digit fraction (leading zeros, trailing zeros, 09/90 shapes) under three integer parts
